@@ -219,6 +219,23 @@ def refusing_peer(sim, p, desc, adv, thr, swallowed):
     deadline = None
     adir = p.tap.dirs[0 if adv == "c" else 1]
     base = None
+    # in half of the runs the victim's request is triggered by what it SENT (its received counters are still far
+    # below the threshold when the refusing peer starts to use up the allowance)
+    send_triggered = bool(sim.choose(2))
+    desc["trigger"] = "victim-sent" if send_triggered else "victim-received"
+    if send_triggered:
+        for i in range(5000):
+            if swallowed["n"] or not victim.is_active():
+                break
+            try:
+                victim.send_ignore(chunk)
+            except Exception:
+                break
+            if i % 16 == 0:
+                sim.sleep(0.01)
+        sim.sleep(0.3 + 2 * desc["latency"])
+        if swallowed["n"]:
+            sim.probe("refusal_after_send_triggered_request")
     # the adversary keeps the line busy with IGNORE messages and never answers KEXINIT
     for i in range(5000):
         if not victim.is_active():
@@ -251,4 +268,4 @@ def refusing_peer(sim, p, desc, adv, thr, swallowed):
                         % (sent_after, pk_after, t["REKEY_BYTES_OVERFLOW_MAX"], t["REKEY_PACKETS_OVERFLOW_MAX"]), desc)
     sim.probe("refusing_peer_dropped")
     p.close()
-    return {"sample": desc, "nontrivial": True, "counts": ["byzantine"]}
+    return {"sample": desc, "nontrivial": True, "counts": ["byzantine-" + desc["trigger"]]}
